@@ -582,12 +582,14 @@ def is_registered(
     if check_deferred:
         # Check deferred printers for the type exactly.
         deferred_key = get_deferred_key(type)
-        if deferred_key in _DEFERRED_DISPATCH_BY_NAME:
+        deferred_dispatch = _DEFERRED_DISPATCH_BY_NAME.get(deferred_key)
+        if deferred_dispatch is not None:
             if register_deferred:
-                deferred_dispatch = _DEFERRED_DISPATCH_BY_NAME.pop(
-                    deferred_key
-                )
+                # Register first, then forget the deferred entry: another
+                # thread printing the same type concurrently must find
+                # the printer in one of the two places at all times.
                 register_pretty(type)(deferred_dispatch)
+                _DEFERRED_DISPATCH_BY_NAME.pop(deferred_key, None)
             return True
 
     if not check_superclasses:
@@ -597,12 +599,11 @@ def is_registered(
         # Check deferred printers for supertypes.
         for supertype in type.__mro__[1:]:
             deferred_key = get_deferred_key(supertype)
-            if deferred_key in _DEFERRED_DISPATCH_BY_NAME:
+            deferred_dispatch = _DEFERRED_DISPATCH_BY_NAME.get(deferred_key)
+            if deferred_dispatch is not None:
                 if register_deferred:
-                    deferred_dispatch = _DEFERRED_DISPATCH_BY_NAME.pop(
-                        deferred_key
-                    )
                     register_pretty(supertype)(deferred_dispatch)
+                    _DEFERRED_DISPATCH_BY_NAME.pop(deferred_key, None)
                 return True
     return pretty_dispatch.dispatch(type) is not _BASE_DISPATCH
 
